@@ -176,7 +176,11 @@ def handleLint : List String → String
       | some (.list l) => l.mapM numOf
       | _ => none
     match ns, (readSExp node) >>= nodeOf with
-    | some ns, some n => ";".intercalate ((AL.Rules.lint (cfgOf ns) n).map diagS)
+    | some ns, some n =>
+      let isNum : String → Bool := fun s => match ns.find? (·.value = s) with
+        | some x => (match x.float with | .err => false | _ => true)
+        | none => false
+      ";".intercalate ((AL.Rules.lint (cfgOf ns) isNum n).map diagS)
     | _, _ => "bad-op"
   | _ => "bad-op"
 
